@@ -4,7 +4,7 @@ set -u
 PROP=$1; X=$2; SRC=$3; TIER=${4:-quick}; shift 4 2>/dev/null || shift $#
 V=/verif; D=$V/seeded/$PROP-$X
 mkdir -p "$D"
-cp "$SRC/$X.diff" "$D/patch.diff"; cp "$SRC/${X}_demo_test.go" "$D/demo_test.go"; [ -f "$SRC/$X.md" ] && cp "$SRC/$X.md" "$D/notes.md"
+if [ "$SRC" != "-" ]; then cp "$SRC/$X.diff" "$D/patch.diff"; cp "$SRC/${X}_demo_test.go" "$D/demo_test.go"; [ -f "$SRC/$X.md" ] && cp "$SRC/$X.md" "$D/notes.md"; fi
 $V/tools/seedtest.sh "$PROP" "$D/patch.diff" "$D/demo_test.go" "$TIER" "$@" > "$D/result.txt" 2>&1
 python3 - "$PROP" "$X" "$D" "$TIER" <<'PY'
 import sys,json,re
